@@ -904,6 +904,13 @@ def _finite_state(h):
         v = h[k]
         if v is not None and not np.all(np.isfinite(np.asarray(v, dtype=float))):
             return False
+    # a free parameter without variance, or a covariance matrix that cannot be normalised (seen with the scipy backend: its
+    # numerical Hessian is noise when values are ~1e6): a degenerate fit result, not a display question (DESIGN.md, degenerate minima)
+    if h["errors"] is not None and h["errors_valid"]:
+        if any(n not in h["fixed"] and not float(e) > 0.0 for n, e in zip(h["names"], h["errors"])):
+            return False
+    if h["cor"] is not None and not np.all(np.isfinite(np.asarray(h["cor"], dtype=float))):
+        return False
     return True
 
 
